@@ -7,6 +7,7 @@ mod framed;
 mod prims;
 mod rng;
 mod t1_addr;
+mod t1_config;
 mod t1_misc;
 mod t1_pw;
 mod t1_sstcp;
@@ -29,6 +30,7 @@ fn exec_case(f: &[&str]) -> Vec<String> {
         "vmbody" | "vmsrv" | "vmcli" => t1_vmess::exec(f),
         "trojsrv" | "trojcu" | "trojenc" | "trojsenc" | "s5ir" | "s5cr" | "s5irs" | "s5crs" | "s5udp" | "s5udpenc" | "http" => t1_misc::exec(f),
         "s5enc" | "s5dec" | "s5try" | "vmw" | "vmr" => t1_addr::exec(f),
+        "cfgcipher" | "cfgproto" | "cfgmode" | "cfgkind" | "cfgobj" | "cfgkdf" | "cfgb64" | "cfgkeys" | "cfguser" | "cfgpath" => t1_config::exec(f),
         _ => vec![format!("UNKNOWN-COMPONENT {}", f[0])],
     }
 }
@@ -71,6 +73,7 @@ fn main() {
                 "socks5" => t1_misc::generate_socks5(&mut out, seed, thorough),
                 "http" => t1_misc::generate_http(&mut out, seed, thorough),
                 "addr" => t1_addr::generate(&mut out, seed, thorough),
+                "config" => t1_config::generate(&mut out, seed, thorough),
                 _ => {
                     eprintln!("unknown component {}", comp);
                     std::process::exit(2);
